@@ -182,6 +182,12 @@ pub fn judge(case: &W1Case, out: &RunOutcome<W1Out>) -> W1Verdict {
                         let (i, p) = check_all(&m, &s);
                         issues = i;
                         probes = p;
+                        // C07, second clause: a run ended by its limits reports no more generations than the configured maximum
+                        if let (Some(g), Some(limit)) = (s.generations, case.config["termination"]["maxGenerations"].as_u64()) {
+                            if g > limit {
+                                issues.push(Issue { prop: "C07", rule: "too-many-generations", msg: format!("reported generations {g} > maxGenerations {limit} of the solver config"), tag: "" });
+                            }
+                        }
                     }
                     (Err(e), _) => discarded = Some(format!("oracle cannot parse problem: {e}")),
                     (_, Err(e)) => issues.push(Issue { prop: "C02", rule: "bad-solution-doc", msg: e, tag: "" }),
@@ -251,6 +257,16 @@ impl W1Scenario {
                 msg: i.msg.clone(),
             })
             .collect();
+        if self.prop == "C07" {
+            // a run ended by its limits must return a solution which satisfies C01-C03 (second clause of C07)
+            for i in rec.issues.iter_mut().filter(|i| matches!(i.prop.as_str(), "C01" | "C02" | "C03")) {
+                i.msg = format!("run ended by its configured limits: [{}] {}", i.prop, i.msg);
+                i.prop = "C07".into();
+            }
+        }
+        for i in rec.issues.iter_mut().filter(|i| i.rule == "panic" && i.msg.contains("ComponentRange") && i.msg.contains("timestamp")) {
+            i.sig = if i.sig.is_empty() { "timestamp-out-of-range".to_string() } else { format!("{}|timestamp-out-of-range", i.sig) };
+        }
         let flag_insertions = crate::scen::flagwatch::seen();
         if std::env::var_os("VSIM_DUMP").is_some() {
             crate::say!("FLAGWATCH applied insertions with a flagged leg in some tour of the individual: {}", flag_insertions);
